@@ -35,12 +35,16 @@ def run(prop, tier):
                       note="bounded companion of unit_wait_all (range rule, every n): also covers a rewritten WAIT loop that the rule no longer matches")]
     from props import rust_standin as RS
     vec = dict(timer=RS.timer_vectors(tier))
-    res = RS.run(vec, ["timer"])
-    v.absorb(RS.reports(res, vec, ["timer"]), known, expect_obligations=False)
+    wt = [(m, s_, nb, wi) for m in (3, 7, 10, 40) for s_ in (0, 4, 9) for nb in (0, 1, 3) for wi in ((0, 1, 5, 6, 10, 12, 25) if tier == "quick" else (0, 1, 2, 3, 5, 6, 9, 10, 11, 12, 25, 39, 40, 41, 100))]
+    vec["wait_timers"] = dict(cases=[dict(mp=m, sp=s_, nops_before=nb, wait_i=wi, steps_after=60) for m, s_, nb, wi in wt])
+    res = RS.run(vec, ["timer", "wait_timers"])
+    v.absorb(RS.reports(res, vec, ["timer", "wait_timers"]), known, expect_obligations=False)
     v.obligations, v.discharged = before
     v.bounded.append(RS.summarize(res, "timer", "TimerContext::tick_timers on the compiled crate: all period pairs 0..%d x 0..%d (0 = off)%s, enabled and disabled; tick every cycle 0..39, "
                                   "monotone sequences with gaps up to 2^21, reset at a non-zero base, restored targets that are already due, ISR pre-set to 0x00/0x80/0x03/0x54; "
                                   "expected fired pair, next targets and ISR byte from the closed form of the advance() contract" % ((6, 6, "") if tier == "quick" else (12, 12, " plus 4 large pairs"))))
+    v.bounded.append(RS.summarize(res, "wait_timers", f"CoreRuntime::step over NOPs, one WAIT and NOPs on the compiled crate, {len(wt)} cases (main period 3/7/10/40, sub period off/4/9, 0/1/3 NOPs before, WAIT counts {sorted(set(x[3] for x in wt))}): "
+                                  "a step raises a status bit iff a period boundary lies in its cycle interval, next target strictly in the future and on the boundary grid, zero-period timers silent; laws stated in the Rust test"))
     v.assumptions = [
         "mathematical (unbounded) integers for periods, targets and cycle counts: no machine-width assumption",
         "loop invariant of advance(): period > 0, target = target0 + k*period (ghost k >= 0), target - period <= cycle; variant cycle - target + 1",
